@@ -101,3 +101,31 @@ func TestRefSchemaCorpus(t *testing.T) {
 		t.Fatalf("corpus too small")
 	}
 }
+
+// Every hole template, filled with one valid filler, must be a document that both the
+// library and the reference accept - otherwise the symbolic cases through it are vacuous.
+func TestHoleTemplatesAreWellFormed(t *testing.T) {
+	for i, h := range SchemaHoles {
+		toks := append(append(append([]Tok(nil), h[0]...), Tok{KInt, "1"}), h[1]...)
+		src := Render(toks)
+		_, err := parser.ParseSchema(&ast.Source{Input: src})
+		ok, _ := RefSchema(Significant(toks), Liberties{})
+		if err != nil || !ok {
+			t.Errorf("schema hole %d filled with 1: library err=%v reference ok=%v\n%s", i, err, ok, src)
+		}
+	}
+	for i, h := range QueryHoles {
+		filler := Tok{KInt, "1"}
+		if i >= 8 {
+			filler = Tok{KName, "b"}
+		}
+		toks := append(append(append([]Tok(nil), h[0]...), filler), h[1]...)
+		src := Render(toks)
+		_, err := parser.ParseQuery(&ast.Source{Input: src})
+		ok, _ := RefQuery(Significant(toks), Liberties{})
+		if err != nil || !ok {
+			t.Errorf("query hole %d filled: library err=%v reference ok=%v\n%s", i, err, ok, src)
+		}
+	}
+	t.Logf("%d schema holes, %d query holes", len(SchemaHoles), len(QueryHoles))
+}
